@@ -73,6 +73,7 @@ Bad(e) ==
     [] e.ev = "Race" -> {"C13.data_race"}
     [] e.ev = "End" -> (IF e.races # 0 THEN {"C13.data_race"} ELSE {})
                        \cup (IF e.crash THEN {"C13.process_died"} ELSE {})   \* fatal error: concurrent map access, ...
+                       \cup (IF "hung" \in DOMAIN e /\ e.hung THEN {"C13.no_return"} ELSE {})  \* calls blocked inside the library for minutes
 
 Reset ==
   /\ Trace[l].ev = "Start" /\ dead' = FALSE /\ lastseq' = Empty /\ bmap' = Empty /\ UNCHANGED nviol
